@@ -17,7 +17,7 @@ import (
 func init() {
 	mon.Register(&mon.Prop{
 		ID: "C16", Level: "exploration",
-		Rule: "generated REBASE format-31 listings: arbitrary header prose (incl. <WORD> legends, never <n> tags), supplier table with 0..26 letters indented with blanks (as distributed) or tabs, 0..300 records with empty fields, 0..15 supplier letters per enzyme, extra reference lines after <8>; Parse, Read (temp file) and Export+json.Unmarshal; non-trivial = at least one record with a non-empty supplier list; distinct by hash of the listing",
+		Rule:        "generated REBASE format-31 listings: arbitrary header prose (incl. <WORD> legends, never <n> tags), supplier table with 0..26 letters indented with blanks (as distributed) or tabs, 0..300 records with empty fields, 0..15 supplier letters per enzyme, extra reference lines after <8>; Parse, Read (temp file) and Export+json.Unmarshal; non-trivial = at least one record with a non-empty supplier list; distinct by hash of the listing",
 		Assumptions: []string{"oracle: the abstract listing; nil, empty and [\"\"] are equal for an empty list field", "field text contains no '<' (format guarantee: tags only at line starts)"},
 		Shards:      tierShards(8, 16), WatchdogSec: tierSecs(600, 3600),
 		MinStats: func(string) map[string]int64 {
